@@ -132,3 +132,17 @@ Theorem C13_tables_are_source :
   /\ ImpGen.imp_sequtil_init_sequtil_1 = GoSem.Ret Bio.Model.GoGlobals.g_sequtil_dnaFrom2bit.
 Proof. exact ImpProofs.imp_init_tables. Qed.
 Print Assumptions C13_tables_are_source.
+
+(* ---- both round trips, about the translated source ------------------------------------------------------- *)
+From Bio.Proofs Require ImpProofsW.
+Theorem C13_to_from_is_source : forall p, Forall (fun b => b < 256) p ->
+  exists s, ImpGen.imp_sequtil_DNAFrom2Bit [] p = GoSem.Ret s /\ ImpGen.imp_sequtil_DNATo2Bit [] s = GoSem.Ret p.
+Proof. exact ImpProofsW.to_from_src. Qed.
+Print Assumptions C13_to_from_is_source.
+
+Theorem C13_from_to_is_source : forall s, dna8 s ->
+  exists p, ImpGen.imp_sequtil_DNATo2Bit [] s = GoSem.Ret p /\
+    ImpGen.imp_sequtil_DNAFrom2Bit [] p
+    = GoSem.Ret (map upper_byte s ++ repeat 65 (Nat.modulo (4 - Nat.modulo (length s) 4) 4)).
+Proof. exact ImpProofsW.from_to_src. Qed.
+Print Assumptions C13_from_to_is_source.
